@@ -675,9 +675,9 @@ class Full(Engine):
         if self.fmode == "fp":
             raise Unsupported(f"math.{name} in fp mode")
         if name == "radians":
-            return self._round(x * z3.RealVal(repr(math.pi / 180.0)))
+            return self._round(x * self.fconst(math.pi / 180.0))
         if name == "degrees":
-            return self._round(x * z3.RealVal(repr(180.0 / math.pi)))
+            return self._round(x * self.fconst(180.0 / math.pi))
         if name in ("cos", "sin"):
             c, s = self.trig(x)
             return c if name == "cos" else s
